@@ -634,7 +634,9 @@ impl Engine {
                 Mode::Replay { path, .. } => path.clone(),
                 _ => String::new(),
             };
-            self.audit_out.push((path, stored.trim() == now.trim() || stored.trim().is_empty()));
+            // lines that name files (they contain the directory the case was saved in) are not part of the case
+            let norm = |t: &str| t.lines().filter(|l| !l.starts_with("files:")).collect::<Vec<_>>().join("\n").trim().to_string();
+            self.audit_out.push((path, norm(&stored) == norm(&now) || stored.trim().is_empty()));
         }
         let t0 = Instant::now();
         match r {
